@@ -5,7 +5,7 @@ from analysis.flow import DefUse, ReachingDefs, backward, find_calls, callee_is,
 from analysis.linear import Linear
 from analysis.atomics import AtomicModel, is_atomic_method, receiver_key
 from analysis.table import describe_val, PathWalker
-from rules.common import need, unit, inl
+from rules.common import need, unit, inl, uncovered_roots
 
 OWS = "common::ordered_work_steal::OrderedWorkStealQueue"
 OLQ = "common::ordered_work_steal::OrderedLocalQueue"
@@ -88,56 +88,76 @@ def pair_rule(run, f, rid):
                     du = du or DefUse(body)
                     if receiver_key(body, du, t["args"][0]) == key:
                         writers.setdefault(body.npath, []).append((bid, t, c.rsplit("::", 1)[1]))
-        extra = set(writers) - {pushfn, popfn}
+        # a writer outside push/pop is fine when it can only be entered from them (a helper cut out of them)
+        extra = {w for w in set(writers) - {pushfn, popfn} if uncovered_roots(f, w.split("::{closure#", 1)[0], {pushfn, popfn})}
+        def unit_writers(ub):
+            udu, out = DefUse(ub), []
+            for bid, t in ub.calls():
+                c = norm(t.get("callee") or "")
+                if c.startswith("std::sync::atomic::Atomic::") and c.rsplit("::", 1)[1] not in ("load", "new") and receiver_key(ub, udu, t["args"][0]) == key:
+                    out.append((bid, t, c.rsplit("::", 1)[1]))
+            return out
         if extra:
             run.fail(rid, adt + "/len-writers", "core/src/common", "shared len of %s is written outside push/pop: %s" % (adt, sorted(extra)))
         else:
             run.ok(rid, adt + "/len-writers", sorted(writers))
         # push: Injector::push then fetch_add(1) on all paths, once
-        b = need(run, rid, f, pushfn)
+        b = unit(run, rid, f, pushfn)
         if b is not None:
             cfg = Cfg(b)
             du = DefUse(b)
             pushes = find_calls(b, callee_is("crossbeam_deque::Injector::push"))
-            incs = [(bid, t) for (bid, t, m) in writers.get(pushfn, []) if m == "fetch_add" and op_const(t["args"][1]) == 1]
-            okc = len(pushes) == 1 and len(incs) == 1 and len(writers.get(pushfn, [])) == 1
+            pw = unit_writers(b)
+            incs = [(bid, t) for (bid, t, m) in pw if m == "fetch_add" and op_const(t["args"][1]) == 1]
+            okc = len(pushes) == 1 and len(incs) == 1 and len(pw) == 1
             if okc:
                 okp, _ = cfg.must_pass(cfg.after(pushes[0][0]), [incs[0][0]])
                 okc = okp and not cfg.in_cycle(incs[0][0]) and cfg.dominates(pushes[0][0], incs[0][0])
             if okc:
                 run.ok(rid, pushfn + "/inc", "Injector::push -> len.fetch_add(1) on every path, once")
             else:
-                run.fail(rid, pushfn + "/inc", b.loc(), "after Injector::push the shared len must be incremented by exactly 1 on every path (pushes=%d, +1 sites=%d, writers=%d)" % (len(pushes), len(incs), len(writers.get(pushfn, []))))
+                run.fail(rid, pushfn + "/inc", b.loc(), "after Injector::push the shared len must be incremented by exactly 1 on every path (pushes=%d, +1 sites=%d, writers=%d)" % (len(pushes), len(incs), len(pw)))
         # pop: Success arm -> exactly one decrement; no decrement elsewhere
-        b = need(run, rid, f, popfn)
+        b = unit(run, rid, f, popfn)
         if b is not None:
             cfg = Cfg(b)
             du = DefUse(b)
             steals = find_calls(b, callee_is("crossbeam_deque::Injector::steal"))
-            decs = writers.get(popfn, [])
-            ok = len(steals) == 1 and len(decs) == 1 and decs[0][2] in ("fetch_sub", "fetch_update")
+            decs = unit_writers(b)
+            ok = len(steals) >= 1 and len(decs) == 1 and decs[0][2] in ("fetch_sub", "fetch_update")
             why = "steal sites=%d, len writers=%d" % (len(steals), len(decs))
             if ok:
-                sb = cfg.after(steals[0][0])[0]
-                # find the switch on the steal result
-                arm = None
-                for x in sorted(cfg.reachable({sb})):
-                    if b.blocks[x]["term"]["k"] == "switch":
-                        si = switch_info(b, du, x)
-                        if si["kind"] == "discr" and si["place"]["l"] == steals[0][1]["dest"]["l"]:
-                            arm = si["arms"].get("Success")
-                            other = [bb for n, bb in si["arms"].items() if n != "Success"]
-                            break
-                if arm is None:
+                # every switch on a Steal value: its Success arm(s) and the others
+                succ, other = set(), set()
+                for blk in b.blocks:
+                    if blk["term"]["k"] == "switch" and not blk["cleanup"]:
+                        si = switch_info(b, du, blk["id"])
+                        if si["kind"] == "discr" and norm(si["adt"] or "").endswith("Steal"):
+                            if si["arms"].get("Success") is not None:
+                                succ.add(si["arms"]["Success"])
+                            other |= {bb for n, bb in si["arms"].items() if n != "Success"}
+                            t_ = blk["term"]
+                            if t_["otherwise"] not in si["arms"].values() and b.blocks[t_["otherwise"]]["term"]["k"] != "unreachable":
+                                other.add(t_["otherwise"])
+                other -= succ
+                if not succ:
                     ok, why = False, "no match on the Steal result"
                 else:
-                    okp, _ = cfg.must_pass([arm], [decs[0][0]])
-                    # the decrement must not be reachable from the other arms without a new Success
-                    leak = any(decs[0][0] in cfg.reachable({o}, avoid={steals[0][0]}) for o in other)
-                    ok = okp and not leak and cfg.dominates(arm, decs[0][0])
-                    why = "Success arm reaches the decrement on all paths: %s; decrement reachable from Empty/Retry: %s" % (okp, leak)
+                    okp = all(cfg.must_pass([a], [decs[0][0]])[0] for a in succ)
+                    # the decrement is reached only through a Success arm
+                    leak = decs[0][0] in cfg.reachable({0}, avoid=succ)
+                    # ... and at most once per Success: it cannot be reached again without another Success
+                    twice = decs[0][0] in cfg.reachable(set(cfg.after(decs[0][0])), avoid=succ)
+                    ok = okp and not leak and not twice
+                    why = "Success arm reaches the decrement on all paths: %s; decrement reachable without a Steal::Success: %s" % (okp, leak)
                     if ok and decs[0][2] == "fetch_update":
-                        cl = [c for c in f.closures_of(b)]
+                        # the update closure: the one handed to this fetch_update (wherever it is defined)
+                        cl = []
+                        for a_ in decs[0][1]["args"]:
+                            dv = describe_val(b, du, a_)
+                            if isinstance(dv, tuple) and dv and dv[0] == "closure":
+                                cl += f.by_npath.get(dv[1], [])
+                        cl = cl or [c for c in f.closures_of(getattr(b, "origin", b))]
                         amt = None
                         for c in cl:
                             for (_x, tt) in c.calls():
@@ -187,8 +207,9 @@ def retry_rule(run, f, rid):
             if retry_bb is None:
                 why = "the result of Injector::steal is not matched on Steal::Retry (a Retry is treated like Empty: the pop reports empty although the injector may hold items)"
                 break
-            back = sb in cfg.reachable({retry_bb}, avoid=advance | rets)
-            leak = bool((rets | advance) & cfg.reachable({retry_bb}, avoid={sb}))
+            S = {x for (x, _t) in steals}       # `let mut a = q.steal(); while a.is_retry() { a = q.steal() }` has two sites
+            back = bool(S & cfg.reachable({retry_bb}, avoid=advance | rets))
+            leak = bool((rets | advance) & cfg.reachable({retry_bb}, avoid=S))
             if not back or leak:
                 why = "the Steal::Retry arm does not go back to stealing from the same injector (it reaches %s)" % ("the next bucket / a return" if leak else "no further steal")
                 break
@@ -228,29 +249,34 @@ def ascending_rule(run, f, rid):
             why.append("does not iterate the SkipMap with a single forward iterator")
         if it["rev"]:
             why.append("iterates in reverse (rev/next_back): lowest priority would be served first")
-        if len(inner_calls) != 1:
-            why.append("expected exactly one bucket pop site, found %d" % len(inner_calls))
+        if not inner_calls:
+            why.append("no bucket pop site found")
         if not why:
             nb = it["next"][0]
-            ib, itc = inner_calls[0]
-            # bucket pop operates on the entry yielded by this iteration
-            sl = backward(b, itc["args"][0], du, at=(ib, "term"))
-            if not any(x == nb for (x, _t) in sl.calls):
-                why.append("the bucket popped is not the entry yielded by the iterator")
-            # success arm returns without going back to next()
-            arm = None
-            for x in sorted(cfg.reachable(cfg.after(ib))):
-                if b.blocks[x]["term"]["k"] == "switch":
-                    si = switch_info(b, du, x)
-                    if si["kind"] == "discr" and not si["place"]["proj"] and value_root(du, si["place"]["l"]) == value_root(du, itc["dest"]["l"]):
-                        arm = si["arms"].get("Some") or si["arms"].get("Success")
-                        break
+            # every bucket pop (a retry loop may have two sites) operates on the entry yielded by this iteration
+            for (ib, itc) in inner_calls:
+                sl = backward(b, itc["args"][0], du, at=(ib, "term"))
+                if not any(x == nb for (x, _t) in sl.calls):
+                    why.append("the bucket popped is not the entry yielded by the iterator")
+            # every success arm of a match on a bucket pop result returns without going back to next()
+            inner_blocks = {x for (x, _t) in inner_calls}
+            arms = []
+            for blk in b.blocks:
+                if blk["cleanup"] or blk["term"]["k"] != "switch":
+                    continue
+                si = switch_info(b, du, blk["id"])
+                if si["kind"] == "discr" and not si["place"]["proj"] and (si["arms"].get("Some") is not None or si["arms"].get("Success") is not None):
+                    vs = backward(b, {"k": "copy", "p": {"l": si["place"]["l"], "proj": []}}, du, at=(blk["id"], "term"), through_calls="none")
+                    if inner_blocks & {x for (x, _t) in vs.calls}:
+                        arms.append(si["arms"].get("Some") or si["arms"].get("Success"))
+            arm = arms[0] if arms else None
             if arm is None:
                 why.append("no match on the bucket pop result")
             else:
-                r = cfg.reachable({arm})
-                if nb in r or not (set(cfg.returns) & r):
-                    why.append("a successful bucket pop does not return immediately (the scan continues to later priorities)")
+                for arm in arms:
+                    r = cfg.reachable({arm})
+                    if nb in r or not (set(cfg.returns) & r):
+                        why.append("a successful bucket pop does not return immediately (the scan continues to later priorities)")
                 # and the value returned on that arm is the popped one
                 lw = Linear(b, [], lambda c, t: c == inner, lambda c, t: None)
                 lw.run()
